@@ -287,7 +287,56 @@ Section WithD.
     end.
   Definition hybrid_mpi (P : nat) (lens : list nat) (nclu : option nat) (cutoff : Q) (sweeps : list (list nat)) : option dstate :=
     match kcenters_mpi P lens nclu cutoff false with None => None | Some ds => kmedoids_mpi sweeps ds end.
+  (* any sequence of PAM steps with explicit proposals: (cluster id, (owner rank, local index)) *)
+  Fixpoint pam_steps_mpi (steps : list (nat * (nat * nat))) (ds : dstate) : option dstate :=
+    match steps with
+    | [] => Some ds
+    | (cid, prop) :: r => match pam_update_mpi ds cid prop with None => None | Some ds' => pam_steps_mpi r ds' end
+    end.
 End WithD.
+
+(* ---------------------------------------------------------------- MPI warm start
+   kcenters(local, init_centers=C, mpi_mode=True): every rank computes
+     assignments, distances = assign_to_nearest_center(local traj, C)
+   and the centre pairs come from _find_cluster_centers_mpi: each rank runs util.find_cluster_centers on its
+   local arrays (per label present: first local frame of minimal distance), the per-label
+   (distance, local index) entries are allgathered, and for every label present on some rank (ascending) the
+   pair is (first rank of minimal distance, that rank's local index). *)
+Fixpoint argmin_label_idx (c i : nat) (best : option (Q * nat)) (l : list fr) : option (Q * nat) :=
+  match l with
+  | [] => best
+  | x :: r =>
+      if lab x =? c then
+        match best with
+        | None => argmin_label_idx c (S i) (Some (dist x, i)) r
+        | Some (bd, _) => if Qlt_b (dist x) bd then argmin_label_idx c (S i) (Some (dist x, i)) r
+                          else argmin_label_idx c (S i) best r
+        end
+      else argmin_label_idx c (S i) best r
+  end.
+Fixpoint first_min_rank (r : nat) (best : option (Q * (nat * nat))) (l : list (option (Q * nat))) : option (nat * nat) :=
+  match l with
+  | [] => option_map snd best
+  | None :: t => first_min_rank (S r) best t
+  | Some (d, i) :: t =>
+      match best with
+      | None => first_min_rank (S r) (Some (d, (r, i))) t
+      | Some (bd, _) => if Qlt_b d bd then first_min_rank (S r) (Some (d, (r, i))) t
+                        else first_min_rank (S r) best t
+      end
+  end.
+Definition warm_pair (locs : list (list fr)) (c : nat) : option (nat * nat) :=
+  first_min_rank 0 None (map (argmin_label_idx c 0 None) locs).
+Definition warm_ctr_pairs (k : nat) (locs : list (list fr)) : list (nat * nat) :=
+  flat_map (fun c => match warm_pair locs c with Some p => [p] | None => [] end) (seq 0 k).
+(* init = the supplied centres, named by the global ids of the frames they are (non-empty); then the loop *)
+Definition kcenters_warm_mpi (D : nat -> nat -> Q) (P : nat) (lens : list nat) (init : list nat)
+           (nclu : option nat) (cutoff : Q) (ti : bool) : option dstate :=
+  match init with
+  | [] => None
+  | _ => let locs := map (map (nearest_fr D init)) (scatter P lens (seq 0 (sum_nat lens))) in
+         kc_loop_mpi D (S (sum_nat lens)) nclu cutoff ti (mkds (warm_ctr_pairs (length init) locs) init locs)
+  end.
 
 (* ---------------------------------------------------------------- striped loading
    rank r loads keys / files  all_keys[r::size]; with a stride every row is row[::stride] *)
